@@ -64,15 +64,18 @@ def main(argv=None):
     items = [i for i in catalogue() if not want or set(i['props']) & set(want) or any(w.lower() in i['name'].lower() for w in want)]
     results = []
     missed = 0
-    for item in items:
-        r = run_one(item, repo)
-        results.append(r)
-        ok = (r['outcome'] == 'caught') == (item['expect'] == 'caught')
-        if not ok:
-            missed += 1
-        print('%-60s %s %s' % (r['name'], r['outcome'], ' '.join('%s:rc%d/%.0fs' % (x['property'], x['rc'], x['wall_s'])
-                                                             for x in r.get('runs', []))))
-        sys.stdout.flush()
+    from concurrent.futures import ThreadPoolExecutor
+    jobs = int(os.environ.get('VERIF_SELFTEST_JOBS', '4'))
+    with ThreadPoolExecutor(max_workers=jobs) as pool:
+        for item, r in zip(items, pool.map(lambda it: run_one(it, repo), items)):
+            results.append(r)
+            ok = (r['outcome'] == 'caught') == (item['expect'] == 'caught')
+            if not ok:
+                missed += 1
+            print('%-60s %s %s%s' % (r['name'], r['outcome'],
+                                     ' '.join('%s:rc%d/%.0fs' % (x['property'], x['rc'], x['wall_s']) for x in r.get('runs', [])),
+                                     '' if ok else '   <-- expected %s' % item['expect']))
+            sys.stdout.flush()
     os.makedirs(os.path.join(HERE, 'out'), exist_ok=True)
     json.dump(results, open(os.path.join(HERE, 'out', 'selftest.json'), 'w'), indent=1)
     print('selftest: %d breaks, %d not as expected' % (len(items), missed))
